@@ -36,8 +36,8 @@ package helper
 
 //@ func GetDeleteSlots
 //@   requires set != nil
-//@   ensures [C01,C19] freshslots: fresh(deleteSlots)
-//@   ensures [C01,C19] decoded: forall x int32 :: {deleteSlots.has(x)} deleteSlots.has(x) <==> slotsAnn(set)[x]
+//@   ensures [C01,C02,C03,C04,C05,C07,C12,C14,C19] freshslots: fresh(deleteSlots)
+//@   ensures [C01,C02,C03,C04,C05,C07,C12,C14,C19] decoded: forall x int32 :: {deleteSlots.has(x)} deleteSlots.has(x) <==> slotsAnn(set)[x]
 
 //@ extern encoding/json:Unmarshal@GetDeleteSlots
 //@   params data, v
@@ -56,11 +56,11 @@ package helper
 //@   results bound, eff
 //@   requires replicas >= 0
 //@   requires replicas + card(deleteSlots) <= MaxInt32
-//@   ensures [C01] effsub: forall x int32 :: {eff.has(x)} eff.has(x) ==> old(deleteSlots.has(x)) && 0 <= x && x < bound
-//@   ensures [C01] effall: forall x int32 :: {old(deleteSlots.has(x))} old(deleteSlots.has(x)) && 0 <= x && x < bound ==> eff.has(x)
-//@   ensures [C01] boundcard: bound == replicas + card(eff)
+//@   ensures [C01,C02,C03,C04,C05,C07,C12,C14] effsub: forall x int32 :: {eff.has(x)} eff.has(x) ==> old(deleteSlots.has(x)) && 0 <= x && x < bound
+//@   ensures [C01,C02,C03,C04,C05,C07,C12,C14] effall: forall x int32 :: {old(deleteSlots.has(x))} old(deleteSlots.has(x)) && 0 <= x && x < bound ==> eff.has(x)
+//@   ensures [C01,C02,C03,C04,C05,C07,C12,C14] boundcard: bound == replicas + card(eff)
 //@   ensures boundle: bound <= replicas + card(old(dom(deleteSlots)))
-//@   ensures [C01] range: forall x int32 :: {eff.has(x)} {count(old(dom(deleteSlots)), 0, x)} desired(replicas, old(dom(deleteSlots)), x) <==> (0 <= x && x < bound && !eff.has(x))
+//@   ensures [C01,C02,C03,C04,C05,C07,C12,C14] range: forall x int32 :: {eff.has(x)} {count(old(dom(deleteSlots)), 0, x)} desired(replicas, old(dom(deleteSlots)), x) <==> (0 <= x && x < bound && !eff.has(x))
 //@   ensures fresheff: fresh(eff)
 //@   at exit: assert bridge: forall x int32 :: {eff.has(x)} {count(old(dom(deleteSlots)), 0, x)} desiredT(old(dom(deleteSlots)), dom(eff), bound, x)
 //@   ghost var C0 set[int]
